@@ -261,7 +261,11 @@ class Pilot(object):
         # invoke pilot specific callbacks
         # FIXME: this iteration needs to be thread-locked!
         with self._cb_lock:
-            for _,cb_val in self._callbacks[rpc.PILOT_STATE].items():
+
+            # callbacks may (un)register callbacks: iterate over a copy.  A
+            # failing callback must not keep the other callbacks (nor the
+            # remaining state updates) from being handled.
+            for cb_val in list(self._callbacks[rpc.PILOT_STATE].values()):
 
                 cb      = cb_val['cb']
                 cb_data = cb_val['cb_data']
@@ -270,8 +274,11 @@ class Pilot(object):
 
                 self._log.debug('%s calls cb %s', self.uid, cb)
 
-                if cb_data: cb([self], cb_data)
-                else      : cb([self])
+                try:
+                    if cb_data: cb([self], cb_data)
+                    else      : cb([self])
+                except Exception:
+                    self._log.exception('cb error (%s)', cb)
 
             # ask pmgr to invoke any global callbacks
             self._pmgr._call_pilot_callbacks(self)
